@@ -40,7 +40,7 @@ man = {
     ],
     "checks": checks,
     "not_applicable": na,
-    "notes": "All checks rebuild their encodings from /repo's current working tree on every run. Exit codes: 0 ok, 1 VIOLATION (replayed), 2 INCONCLUSIVE (never reported as success).",
+    "notes": "All checks rebuild their encodings from /repo's current working tree on every run. Exit codes: 0 ok, 1 VIOLATION (replayed), 2 INCONCLUSIVE (never reported as success). Known findings (genuine defects recorded, not repaired because the unedited test suite pins the defective behaviour) and fixed defects: known_findings.json (committed, never written at run time); a listed finding prints 'KNOWN-FINDING: property=<id> ...' and does not affect the exit status, any other violation does.",
 }
 json.dump(man, open(os.path.join(VERIF, "MANIFEST.json"), "w"), indent=1)
 print("checks:", [c["property_id"] for c in checks], "na:", [n["property_id"] for n in na])
